@@ -6,15 +6,20 @@ RULE = ('exhaustive grid: 1..3 fields (4..5 sampled) x {slots, order, kw_only} x
         'undecorated subclass, undecorated-of-decorated, decorated-of-undecorated, three decorated levels} x every subset of init fields to replace x '
         '{copy_with, deep_copy_with}; plus every layout of field kinds at every position for <= 2 fields (quick) / <= 3 fields (thorough) '
         'x options x shapes x subsets x methods; elsewhere field kinds {required, default, default_factory, init=False default / factory, compare=False} and '
-        'values with nested mutable structure (lists of dicts of lists, sets, tuples containing lists, aliased sub-objects, None/int/str) '
-        'are drawn from the rng; near misses: unknown keyword, init=False keyword, replacement by the original object / by another '
+        'values with nested mutable structure (lists of dicts of lists, sets, frozensets, tuples containing lists, instances of a plain user class '
+        '- mutable, hashable by identity, compared by identity - directly and inside tuples / frozensets / lists / dicts (as values and as keys) / sets / each other, '
+        'aliased sub-objects, None/int/str) are drawn from the rng; a directed family puts every such hashable-but-mutable value shape into every field '
+        'position x options x shapes x subsets x both methods; near misses: unknown keyword, init=False keyword, replacement by the original object / by another '
         "field's object, positional / missing / surplus constructor arguments, invalid class definitions; attribute cases: set / del of "
         'every field, of init=False fields, of new names, set-then-del sequences; comparison cases: equal twin, one field changed at '
         'each position, other class of the hierarchy, unhashable / incomparable values.  non-trivial = copy with a mutable field value, '
         'or any attribute / comparison case')
 EXHAUSTIVE = {'quick': True, 'thorough': True}
 ASSUMPTIONS = ['field annotations are typing.Any and type_safe validation is observed only as a journal event (the type-checking half is C10)',
-               'values are built from None / int / str / tuple / list / dict / set (no floats, bools, user objects); dict keys are atoms, set members atoms or tuples of atoms',
+               'values are built from None / int / str / tuple / list / dict / set / frozenset / instances of one plain user class without __eq__, __hash__, '
+               '__slots__, __deepcopy__ (no floats, bools); dict keys and set members are hashable values (atoms, tuples, frozensets, such instances)',
+               '"equal to the original\'s value" for an un-replaced field of deep_copy_with is read as: the same value up to object identities (same shape, same '
+               'classes, equal atoms) - Python\'s == wherever no instance with identity equality is involved (theorem seq_veq_of_noObj), and the only possible reading beyond',
                'user __post_init__ hooks only journal; factories return fresh structural copies of a literal']
 TRUSTED = ['copy.deepcopy is modelled without its memo: aliasing *inside* one field value is not claimed to be preserved, only that the copy is structurally equal and shares no mutable node with the original',
            'CPython dataclasses (_process_class, _init_fn, _frozen_get_del_attr, _cmp_fn, _hash_add, _add_slots, replace) are transcribed into the model and exercised by this correspondence check, not verified',
@@ -46,7 +51,7 @@ class Vals:
     """generator of value terms; every tuple / list / dict / set gets a fresh identity; earlier mutable nodes may be re-used (aliasing)"""
 
     def __init__(self, rng, start):
-        self.r, self.n, self.pool = rng, start, []
+        self.r, self.n, self.pool, self.opool = rng, start, [], []
 
     def fresh(self):
         self.n += 1
@@ -61,9 +66,23 @@ class Vals:
             return ['i', r.choice([0, 1, 2, 3, 7, -1, 300, 10 ** 20])]
         return ['s', [ord(ch) for ch in r.choice(['', 'a', 'b', 'ab', 'ba', 'z'])]]
 
+    def obj(self, depth=1):
+        """instance of the plain user class: attributes a0, a1, … hold arbitrary values; hashable (identity) and mutable"""
+        r = self.r
+        if self.opool and r.random() < 0.1:
+            return r.choice(self.opool)
+        v = ['o', self.fresh(), [self.value(depth - 1) for _ in range(r.randint(0, 2))]]
+        self.opool.append(v)
+        return v
+
     def hashable(self, depth=1):
-        if depth <= 0 or self.r.random() < 0.7:
+        k = self.r.random()
+        if depth <= 0 or k < 0.55:
             return self.atom()
+        if k < 0.75:
+            return self.obj(depth)
+        if k < 0.85:
+            return ['f', self.fresh(), self.uniq([self.hashable(depth - 1) for _ in range(self.r.randint(0, 3))])]
         return ['t', self.fresh(), [self.hashable(depth - 1) for _ in range(self.r.randint(1, 3))]]
 
     def uniq(self, items):
@@ -83,7 +102,7 @@ class Vals:
         if k == 0:
             v = ['l', self.fresh(), [self.value(depth - 1) for _ in range(r.randint(0, 3))]]
         elif k == 1:
-            keys = self.uniq([self.atom() for _ in range(r.randint(0, 3))])
+            keys = self.uniq([self.atom() if r.random() < 0.8 else self.hashable(1) for _ in range(r.randint(0, 3))])
             items = []
             for kk in keys:
                 items += [kk, self.value(depth - 1)]
@@ -98,17 +117,26 @@ class Vals:
         if depth <= 0:
             return self.atom()
         k = r.random()
-        if k < 0.25:
+        if k < 0.22:
             return self.atom()
-        if k < 0.4:
+        if k < 0.36:
             return ['t', self.fresh(), [self.value(depth - 1) for _ in range(r.randint(1, 3))]]
+        if k < 0.50:
+            return self.obj(depth)
+        if k < 0.57:
+            return ['f', self.fresh(), self.uniq([self.hashable(depth - 1) for _ in range(r.randint(0, 3))])]
         return self.mutable(depth)
 
     def immutable_default(self):
-        """a plain default must be hashable-by-class: atom or tuple (which may contain a list)"""
+        """a plain default must be hashable-by-class: atom, tuple (which may contain a list), frozenset or an instance of the plain class"""
         r = self.r
-        if r.random() < 0.6:
+        k = r.random()
+        if k < 0.5:
             return self.atom()
+        if k < 0.65:
+            return ['o', self.fresh(), [self.value(1) for _ in range(r.randint(0, 2))]]
+        if k < 0.72:
+            return ['f', self.fresh(), self.uniq([self.hashable(1) for _ in range(r.randint(0, 2))])]
         return ['t', self.fresh(), [self.value(1) for _ in range(r.randint(1, 2))]]
 
     def template(self, depth=2):
@@ -116,7 +144,11 @@ class Vals:
         r = self.r
         if depth <= 0:
             return self.atom()
-        k = r.randrange(3)
+        k = r.randrange(4)
+        if k == 3:
+            k = r.randrange(3)
+            if r.random() < 0.6:
+                return ['o', self.fresh(), [self.template(depth - 1) if r.random() < 0.4 else self.atom() for _ in range(r.randint(0, 2))]]
         if k == 0:
             return ['l', self.fresh(), [self.template(depth - 1) if r.random() < 0.4 else self.atom() for _ in range(r.randint(0, 3))]]
         if k == 1:
@@ -138,6 +170,9 @@ class Vals:
         k = r.random()
         if depth <= 0 or k < 0.5:
             return ['i', r.choice([0, 1, 2, 3])] if r.random() < 0.75 else ['s', [ord(c) for c in r.choice(['a', 'b', 'ab'])]]
+        if k < 0.55:
+            return ['o', self.fresh(), [['i', r.choice([0, 1])]]] if r.random() < 0.6 else \
+                ['f', self.fresh(), self.uniq([['i', r.choice([0, 1, 2])] for _ in range(r.randint(0, 3))])]
         if k < 0.75 or hashable:
             return ['t', self.fresh(), [self.comparable(depth - 1, hashable) for _ in range(r.randint(1, 3))]]
         if k < 0.92:
@@ -167,13 +202,13 @@ class Vals:
                     pairs = sorted([(items[i], items[i + 1]) for i in range(0, len(items), 2)] + [(nk, ['i', 1])], key=lambda p: vkey(p[0]))
                     items = [x for p in pairs for x in p]
             return ['d', self.fresh(), items]
-        if t == 'e':
+        if t in 'ef':
             k = r.random()
             if items and k < 0.4:
                 items = items[:-1]
             else:
                 items = self.uniq(items + [['i', r.choice([5, 6, 7])]])
-            return ['e', self.fresh(), items]
+            return [t, self.fresh(), items]
         k = r.random()
         if items and k < 0.5:
             i = r.randrange(len(items))
@@ -202,10 +237,25 @@ def build(j, memo):
         v = items
     elif t == 'd':
         v = dict(zip(items[0::2], items[1::2]))
+    elif t == 'f':
+        v = frozenset(items)
+    elif t == 'o':
+        v = Plain()
+        for i, x in enumerate(items):
+            setattr(v, f'a{i}', x)
     else:
         v = set(items)
     memo[j[1]] = v
     return v
+
+
+class Plain:
+    """an ordinary user class: no __eq__ / __hash__ / __slots__ / __deepcopy__ — its instances are mutable, hashable by identity and
+    compared by identity; copy.deepcopy rebuilds them with a deep copy of their __dict__"""
+
+
+def plain_items(v):
+    return [x for _, x in sorted(vars(v).items(), key=lambda kv: int(kv[0][1:]))]
 
 
 def max_id(j):
@@ -403,11 +453,13 @@ def cmp_cases(rng, v0, cls, shape_tag, comparable):
 
     def twin(v, ctor, drop, change=None):
         ok = {n for (n, f, k) in resolved(cls[drop:]) if f['init']}
-        c2 = {'pos': [v.reid(x) for x in ctor['pos']] if drop == 0 else [],
-              'kw': [[n, (v.mutate(x) if n == change else v.reid(x))] for n, x in ctor['kw'] if n in ok]}
+        # now and then the twin holds the very same objects (instances with identity equality are equal only then)
+        re = (lambda x: x) if rng.random() < 0.3 else v.reid
+        c2 = {'pos': [re(x) for x in ctor['pos']] if drop == 0 else [],
+              'kw': [[n, (v.mutate(x) if n == change else re(x))] for n, x in ctor['kw'] if n in ok]}
         if drop != 0:
             std = [n for (n, f, k) in resolved(cls) if f['init'] and not k]
-            c2['kw'] += [[n, v.reid(x)] for n, x in zip(std, ctor['pos']) if n in ok]
+            c2['kw'] += [[n, re(x)] for n, x in zip(std, ctor['pos']) if n in ok]
         return c2
     variants = [None] + [n for (n, f, k) in fs]
     for ch in variants:
@@ -475,6 +527,55 @@ def kinds_grid(rng, nfs, shapes):
     return out
 
 
+def hashmut_values(v):
+    """every shape of a hashable-but-mutable value: an instance of the plain class directly, inside a tuple / frozenset (hashable all the way
+    down), inside a list / dict (as value and as key) / set, inside another instance, aliased twice, next to plain immutable data"""
+    def o(*items):
+        return ['o', v.fresh(), list(items)]
+    one = ['i', 1]
+    shared = o(one, ['l', v.fresh(), []])
+    return [o(one),
+            o(['l', v.fresh(), [one]], ['s', [97]]),
+            ['t', v.fresh(), [o(one), o(['i', 2])]],
+            ['t', v.fresh(), [one, ['t', v.fresh(), [o()]]]],
+            ['f', v.fresh(), [o(one)]],
+            ['f', v.fresh(), [['t', v.fresh(), [one, o(one)]]]],
+            ['l', v.fresh(), [o(one), one]],
+            ['d', v.fresh(), [['s', [107]], o(one)]],
+            ['d', v.fresh(), [o(one), ['l', v.fresh(), []]]],
+            ['e', v.fresh(), [o(one)]],
+            o(o(o())),
+            ['t', v.fresh(), [shared, shared]],
+            ['t', v.fresh(), [one, ['s', [97]]]],
+            ['f', v.fresh(), [one]]]
+
+
+def hashmut_cases(rng, shapes, opts_list):
+    """directed: hashable-but-mutable values in every field position x options x shapes x every subset of fields to replace x both methods"""
+    out = []
+    k = 0
+    for opts in opts_list:
+        for shape in shapes:
+            for nf in (1, 2, 3):
+                v = Vals(rng, 0)
+                cls = mk_class(rng, v, nf, ['req'] * nf, opts, shape, opts)
+                st = f"{shape}/s{int(opts[0])}o{int(opts[1])}k{int(opts[2])}"
+                names = [n for (n, f, kwo) in resolved(cls) if f['init']]
+                subsets = []
+                for m in range(len(names) + 1):
+                    subsets += list(itertools.combinations(names, m))
+                base_n = v.n
+                for sub in subsets:
+                    for deep in (False, True):
+                        v = Vals(rng, base_n)
+                        fam = hashmut_values(v)
+                        ctor = {'pos': [], 'kw': [[n, fam[(k + 5 * i) % len(fam)]] for i, n in enumerate(names)]}
+                        k += 1
+                        kw = [[n, rng.choice(hashmut_values(v))] for n in sub]
+                        out.append(finish(cls, ctor, ['copy', deep, kw], v, f'copy-hashmut/{st}'))
+    return out
+
+
 def invalid_defs(rng):
     """near misses at class-definition time"""
     out = []
@@ -520,11 +621,13 @@ def corpus_seed(rng):
 def cases(rng, tier):
     out = invalid_defs(rng)          # (the repaired regions' failing inputs live in harness/corpus/C11.jsonl, see corpus_seed)
     if tier == 'quick':
+        out += hashmut_cases(rng, SHAPES, [(False, False, True), (True, True, False)])
         out += grid(rng, [1, 2, 3], SHAPES[:3], 2)
         out += grid(rng, [2, 3], SHAPES[3:], 1)
         out += grid(rng, [4, 5], SHAPES, 1)[::3]
         out += kinds_grid(rng, [1, 2], SHAPES[:3])
     else:
+        out += hashmut_cases(rng, SHAPES, OPTS)
         out += grid(rng, [1, 2, 3], SHAPES, 12, full=True)
         out += grid(rng, [4, 5], SHAPES, 4, full=True)
         out += kinds_grid(rng, [1, 2, 3], SHAPES)
@@ -532,7 +635,7 @@ def cases(rng, tier):
 
 
 def search(rng, tier, near):
-    return grid(rng, [1, 2, 3], SHAPES, 2, full=True)
+    return hashmut_cases(rng, SHAPES, OPTS) + grid(rng, [1, 2, 3], SHAPES, 2, full=True)
 
 
 # ------------------------------------------------------------------ implementation side
@@ -629,11 +732,17 @@ def same(a, b):
 
 
 def mut_ids(v, acc=None):
-    """id() of every list / dict / set reachable from v"""
+    """id() of every mutable object — list / dict / set / instance of the plain class — reachable from v (through tuples and frozensets too)"""
     if acc is None:
         acc = {}
-    if isinstance(v, list) or isinstance(v, set) or isinstance(v, tuple):
-        if not isinstance(v, tuple):
+    if isinstance(v, Plain):
+        if id(v) in acc:
+            return acc
+        acc[id(v)] = v
+        for x in plain_items(v):
+            mut_ids(x, acc)
+    elif isinstance(v, (list, set, tuple, frozenset)):
+        if not isinstance(v, (tuple, frozenset)):
             if id(v) in acc:
                 return acc
             acc[id(v)] = v
@@ -658,6 +767,10 @@ def canon(v):
         return ['d', sorted(([canon(k), canon(x)] for k, x in v.items()), key=json.dumps)]
     if isinstance(v, set):
         return ['e', sorted((canon(x) for x in v), key=json.dumps)]
+    if isinstance(v, frozenset):
+        return ['f', sorted((canon(x) for x in v), key=json.dumps)]
+    if isinstance(v, Plain):
+        return ['o', type(v).__name__, [[k, canon(x)] for k, x in sorted(vars(v).items())]]
     return [type(v).__name__, v]
 
 
@@ -715,7 +828,8 @@ def run_copy(inst, allnames, deep, kwj, memo):
                    same(r, s) if has_s else None, bool(s == r) if has_s else None,
                    same(r, k) if has_k else None, bool(k == r) if has_k else None,
                    len(set(rm) & set(mut_ids(s))) if has_s else 0,
-                   len(set(rm) & set(self_mut))])
+                   len(set(rm) & set(self_mut)),
+                   (canon(s) == canon(r)) if has_s else None])
     res['fields'] = fl
     return res
 
@@ -882,11 +996,11 @@ def judge(case, impl, model):
                             pfail = f'{meth}: field f{f[0]} is not the object passed as keyword argument'
                         elif e == 'sameObject' and f[2] is not True:
                             pfail = f'{meth}: un-replaced field f{f[0]} is not the object held by the original (not shallow)'
-                        elif e == 'deepEqual' and f[3] is not True:
+                        elif e == 'deepEqual' and f[8] is not True:
                             pfail = f'{meth}: un-replaced field f{f[0]} differs from the original value'
                         elif e == 'deepEqual' and f[7] != 0:
                             pfail = f'{meth}: un-replaced field f{f[0]} shares {f[7]} mutable object(s) with the original (not deep)'
-                        elif e == 'equalOnly' and f[3] is not True:
+                        elif e == 'equalOnly' and f[8] is not True:
                             pfail = f'{meth}: init=False field f{f[0]} differs from the original value'
                         if pfail:
                             break
@@ -941,7 +1055,7 @@ def judge(case, impl, model):
 def _has_mutable(j):
     if j[0] in 'ais':
         return False
-    return j[0] in 'lde' or any(_has_mutable(x) for x in j[2])
+    return j[0] in 'ldeo' or any(_has_mutable(x) for x in j[2])
 
 
 def extra_coverage(results):
